@@ -37,6 +37,9 @@ class Untranslatable(Exception):
 INT, BOOL, CHUNK, STR, RES = 'Int', 'Bool', 'Sk.Py.Chunk', 'Str', 'Sk.Tok'
 TOK = RES
 LLINE = 'Sk.LLine'
+OPTLLINE = 'Option Sk.LLine'   # a LogLine or None
+STATUS = 'Sk.Py.Status'
+NONE = 'None'                  # the constant None (coerced to the optional type it meets)
 OPTINT = 'Option Int'          # an int or None
 OPTDT = 'Option  Int'          # a datetime (as seconds) or None: every non-None value is truthy
                                # (two blanks: a distinct tag for the translator, same Lean type)
@@ -51,6 +54,7 @@ class Ctx:
         self.aux = []                              # emitted loop functions
         self.nloops = 0
         self.ret = spec['ret']
+        self.dead = set()
 
     def define(self, name, typ):
         if name not in self.types:
@@ -87,6 +91,8 @@ def expr(cx, e):
             return (f'({e.value} : Int)', INT)
         if isinstance(e.value, str):
             return '""', STR
+        if e.value is None:
+            return 'none', NONE
         raise Untranslatable(f'constant {src}')
     if isinstance(e, ast.JoinedStr):
         return '""', STR
@@ -94,15 +100,50 @@ def expr(cx, e):
         if e.id in cx.types:
             return lname(e.id), cx.types[e.id]
         raise Untranslatable(f'unknown name {e.id}')
-    if isinstance(e, ast.Attribute) and isinstance(e.value, ast.Name) and \
-            cx.types.get(e.value.id) == TOK and e.attr == 'offset':
-        return f'(Sk.Tok.off {lname(e.value.id)})', INT
+    if isinstance(e, ast.Subscript) and isinstance(e.value, ast.Tuple) and len(e.value.elts) == 2:
+        # (a, b)[flag]: False selects a, True selects b
+        i, ti = expr(cx, e.slice)
+        need(ti, BOOL, src)
+        (a, ta), (b, tb) = expr(cx, e.value.elts[0]), expr(cx, e.value.elts[1])
+        if ta == NONE and tb in (OPTINT, OPTDT, OPTLLINE):
+            ta = tb
+        if tb == NONE and ta in (OPTINT, OPTDT, OPTLLINE):
+            tb = ta
+        if ta == NONE and tb == INT:
+            ta, tb, b = OPTINT, OPTINT, f'(some {b})'
+        if tb == NONE and ta == INT:
+            ta, tb, a = OPTINT, OPTINT, f'(some {a})'
+        if ta == OPTINT and tb == INT:
+            tb, b = OPTINT, f'(some {b})'
+        if tb == OPTINT and ta == INT:
+            ta, a = OPTINT, f'(some {a})'
+        if ta != tb or ta == NONE:
+            raise Untranslatable(f'tuple elements of types {ta}, {tb} in {src}')
+        return f'(if {i} = true then {b} else {a})', ta
+    if isinstance(e, ast.Attribute) and not (isinstance(e.value, ast.Name) and
+                                             e.value.id == 'self'):
+        try:
+            t, ty = expr(cx, e.value)
+        except Untranslatable:
+            t, ty = None, None
+        if ty == TOK and e.attr == 'offset':
+            return f'(Sk.Tok.off {t})', INT
+        if ty == TOK and e.attr == 'status':
+            return f'(Sk.Py.tokStatus {t})', STATUS
+        if ty == LLINE and e.attr in ('start_lf', 'end_lf'):
+            return f"({t}.{'slf' if e.attr == 'start_lf' else 'elf'})", TOK
+        if ty == LLINE and e.attr == 'date' and cx.spec.get('ts_oracle'):
+            return f'(Sk.LLine.date ts {t})', OPTDT
     if isinstance(e, ast.Attribute) and isinstance(e.value, ast.Name) and e.value.id == 'self':
         nm = 'self_' + e.attr
         if nm in cx.types:
             return lname(nm), cx.types[nm]
         raise Untranslatable(f'unknown attribute {src}')
     if isinstance(e, ast.UnaryOp):
+        if isinstance(e.op, ast.UAdd):
+            t, ty = expr(cx, e.operand)
+            need(ty, INT, src)
+            return t, INT
         if isinstance(e.op, ast.USub):
             t, ty = expr(cx, e.operand)
             need(ty, INT, src)
@@ -174,11 +215,11 @@ def prop(cx, e):
                     return f"({a} {'=' if isinstance(op, ast.Is) else '≠'} none)"
                 raise Untranslatable(f'identity test in {src}')
             b, tb = expr(cx, right)
-            if ta != tb or ta not in (INT, BOOL):
+            if ta != tb or ta not in (INT, BOOL, STATUS):
                 raise Untranslatable(f'comparison of {ta} with {tb} in {src}')
             o = {ast.Lt: '<', ast.LtE: '≤', ast.Gt: '>', ast.GtE: '≥', ast.Eq: '=',
                  ast.NotEq: '≠'}.get(type(op))
-            if o is None or (ta == BOOL and o not in ('=', '≠')):
+            if o is None or (ta in (BOOL, STATUS) and o not in ('=', '≠')):
                 raise Untranslatable(f'comparison operator in {src}')
             parts.append(f'{a} {o} {b}')
             left = right
@@ -328,7 +369,20 @@ def block(cx, stmts, k, loop=None):
             cx.define(nm, CHUNK)
             return (f'let {lname(nm)} : Sk.Py.Chunk := Sk.Py.readAt F _pos {t}\n'
                     f'let _pos : Int := _pos + {lname(nm)}.len\n' + after())
+        if nm in cx.dead and not any(isinstance(n, ast.Call) for n in ast.walk(val)):
+            return after()              # only read by (dropped) log calls
         t, ty = expr(cx, val)
+        if ty == NONE:
+            if not may_read_before_write(rest, nm) and loop is None:
+                return after()                       # dead initialisation
+            prev = cx.types.get(nm)
+            opt = {LLINE: OPTLLINE, OPTLLINE: OPTLLINE, INT: OPTINT, OPTINT: OPTINT}.get(prev)
+            if opt is None:
+                raise Untranslatable(f'{nm} = None: no type known for {nm}')
+            ty = opt
+        want = dict(cx.spec['params']).get(nm) if nm.startswith('self_') else None
+        if want == OPTLLINE and ty == LLINE:
+            t, ty = f'(some {t})', OPTLLINE
         cx.define(nm, ty)
         if ty == STR:
             return after()
@@ -337,6 +391,10 @@ def block(cx, stmts, k, loop=None):
         if s.value is None:
             raise Untranslatable('bare return')
         t, ty = expr(cx, s.value)
+        if cx.ret == OPTLLINE and ty == LLINE:
+            t, ty = f'(some {t})', OPTLLINE
+        if cx.ret in (OPTLLINE, OPTINT, OPTDT) and ty == NONE:
+            ty = cx.ret
         if ty != cx.ret:
             raise Untranslatable(f'return of {ty} where {cx.ret} is declared: {unparse(s)}')
         st = cx.spec.get('state_out')
@@ -358,6 +416,9 @@ def block(cx, stmts, k, loop=None):
         return loop[0]()
     if isinstance(s, ast.Assert):
         return f'if {prop(cx, s.test)} then\n{ind(after())}\nelse\n  Sk.Py.Res.exc "AssertionError"'
+    if isinstance(s, ast.If) and (needs_flow(cx, s.test) or flow_compare(cx, s.test)):
+        return cond(cx, s.test, lambda: block(cx, s.body, after, loop),
+                    lambda: block(cx, s.orelse, after, loop))
     if isinstance(s, ast.If):
         opt = optional_test(cx, s.test)
         if opt is not None:
@@ -435,10 +496,17 @@ def block(cx, stmts, k, loop=None):
 
         def recur():
             # every variable of the signature must still have its type
+            args = []
             for v in vars_:
-                if cx.types.get(v) != entry_types[v]:
+                if v == '_pos' and '_pos' not in cx.types:
+                    args.append('(0 : Int)')       # position unknown after a translated call
+                elif cx.types.get(v) == INT and entry_types[v] == OPTINT:
+                    args.append(f'(some {lname(v)})')
+                elif cx.types.get(v) != entry_types[v]:
                     raise Untranslatable(f'{v} changes type inside a loop')
-            return f"{name} {cx.spec['ctx_args']} {' '.join(lname(v) for v in vars_)} fuel".replace('  ', ' ')
+                else:
+                    args.append(lname(v))
+            return f"{name} {cx.spec['ctx_args']} {' '.join(args)} fuel".replace('  ', ' ')
 
         def leave():
             saved = dict(cx.types), list(cx.order)
@@ -462,6 +530,125 @@ def block(cx, stmts, k, loop=None):
         return (f"{name} {cx.spec['ctx_args']} {' '.join(lname(v) for v in vars_)} fuel"
                 .replace('  ', ' '))
     raise Untranslatable(f'statement {unparse(s)}')
+
+
+def _reads(node, nm):
+    return any(isinstance(n, ast.Name) and n.id == nm and isinstance(n.ctx, ast.Load)
+               for n in ast.walk(node))
+
+
+def _scan(stmts, nm):
+    """ 'read' = nm may be read before it is written, 'written' = written on every path that
+    falls through, None = neither yet """
+    for s in stmts:
+        if isinstance(s, (ast.Assign, ast.AugAssign)):
+            if _reads(s.value, nm) or (isinstance(s, ast.AugAssign) and _reads(s.target, nm)):
+                return 'read'
+            tg = s.targets if isinstance(s, ast.Assign) else [s.target]
+            if any(isinstance(t, ast.Name) and t.id == nm for t in tg):
+                return 'written'
+        elif isinstance(s, ast.If):
+            if _reads(s.test, nm):
+                return 'read'
+            a, b = _scan(s.body, nm), _scan(s.orelse, nm)
+            if 'read' in (a, b):
+                return 'read'
+            if a == 'written' and b == 'written':
+                return 'written'
+        elif isinstance(s, ast.While):
+            if _reads(s.test, nm) or _scan(s.body, nm) == 'read':
+                return 'read'
+            # the body may not run at all: still unwritten afterwards
+        elif _reads(s, nm):
+            return 'read'
+        elif isinstance(s, (ast.Return, ast.Raise)):
+            return 'written'            # nothing after this statement on this path
+    return None
+
+
+def may_read_before_write(stmts, nm):
+    return _scan(stmts, nm) == 'read'
+
+
+def flow_compare(cx, test):
+    """ a bare comparison of an optional-datetime EXPRESSION (e.g. `line.date >= since`) """
+    if isinstance(test, ast.Compare) and len(test.ops) == 1 and \
+            not isinstance(test.left, ast.Name):
+        try:
+            _, ta = expr(cx, test.left)
+        except Untranslatable:
+            return False
+        return ta == OPTDT
+    return False
+
+
+def needs_flow(cx, test):
+    """ does the condition mention an optional LogLine local, or compare an optional datetime
+    with a value?  Then it is compiled branch by branch (cond) so that what Python knows after
+    a short-circuit - the local is a real line here - is known to the translation too """
+    for n in ast.walk(test):
+        if isinstance(n, ast.Name) and cx.types.get(n.id) in (OPTLLINE,):
+            return True
+    return False
+
+
+def cond(cx, test, then_k, else_k):
+    if isinstance(test, ast.BoolOp):
+        first, others = test.values[0], test.values[1:]
+        rest_t = others[0] if len(others) == 1 else ast.BoolOp(op=test.op, values=others)
+        if isinstance(test.op, ast.Or):
+            return cond(cx, first, then_k, lambda: cond(cx, rest_t, then_k, else_k))
+        return cond(cx, first, lambda: cond(cx, rest_t, then_k, else_k), else_k)
+    if isinstance(test, ast.UnaryOp) and isinstance(test.op, ast.Not):
+        return cond(cx, test.operand, else_k, then_k)
+    if isinstance(test, ast.Name) and cx.types.get(test.id) == OPTLLINE:
+        # truthiness of a LogLine-or-None: None is falsy, and so is a line of length 0
+        # (LogLine defines __len__)
+        nm = test.id
+        saved = dict(cx.types), list(cx.order)
+        t_none = else_k()
+        cx.types, cx.order = dict(saved[0]), list(saved[1])
+        cx.types[nm] = LLINE
+        t_zero = else_k()
+        cx.types, cx.order = dict(saved[0]), list(saved[1])
+        cx.types[nm] = LLINE
+        t_some = then_k()
+        cx.types, cx.order = saved
+        return (f'match {lname(nm)} with\n| none =>\n{ind(t_none)}\n| some {lname(nm)} =>\n'
+                f'  if Sk.Py.lineLen {lname(nm)} = 0 then\n{ind(t_zero, 4)}\n  else\n{ind(t_some, 4)}')
+    if isinstance(test, ast.Compare) and len(test.ops) == 1:
+        op, right = test.ops[0], test.comparators[0]
+        try:
+            a, ta = expr(cx, test.left)
+        except Untranslatable:
+            a, ta = None, None
+        if ta in (OPTDT, OPTINT) and isinstance(op, (ast.Is, ast.IsNot)) and \
+                isinstance(right, ast.Constant) and right.value is None:
+            saved = dict(cx.types), list(cx.order)
+            t1 = then_k() if isinstance(op, ast.Is) else else_k()
+            cx.types, cx.order = dict(saved[0]), list(saved[1])
+            t2 = else_k() if isinstance(op, ast.Is) else then_k()
+            cx.types, cx.order = saved
+            return f'match {a} with\n| none =>\n{ind(t1)}\n| some _ =>\n{ind(t2)}'
+        if ta == OPTDT:
+            b, tb = expr(cx, right)
+            o = {ast.Lt: '<', ast.LtE: '≤', ast.Gt: '>', ast.GtE: '≥'}.get(type(op))
+            if tb == INT and o:
+                # comparing None with a datetime raises TypeError
+                saved = dict(cx.types), list(cx.order)
+                t1 = then_k()
+                cx.types, cx.order = dict(saved[0]), list(saved[1])
+                t2 = else_k()
+                cx.types, cx.order = saved
+                return (f'match {a} with\n| none => Sk.Py.Res.exc "TypeError"\n| some _d =>\n'
+                        f'  if _d {o} {b} then\n{ind(t1, 4)}\n  else\n{ind(t2, 4)}')
+    saved = dict(cx.types), list(cx.order)
+    c = prop(cx, test)
+    t1 = then_k()
+    cx.types, cx.order = dict(saved[0]), list(saved[1])
+    t2 = else_k()
+    cx.types, cx.order = saved
+    return f'if {c} then\n{ind(t1)}\nelse\n{ind(t2)}'
 
 
 def optional_test(cx, test):
@@ -504,6 +691,8 @@ def call_bind(cx, nm, e, cont):
         t, ty = expr(cx, a)
         if ty == INT and pt in (OPTINT, OPTDT):
             t = f'(some {t})'
+        elif ty == NONE and pt in (OPTINT, OPTDT, OPTLLINE):
+            t = 'none'
         elif ty != pt:
             raise Untranslatable(f'{unparse(e)}: argument {pn} is {ty}, {pt} expected')
         args.append(t)
@@ -568,6 +757,14 @@ def _logline(cx, e):
     return f'(Sk.LLine.mk {a} {b})', LLINE
 
 
+def _is_line_feed(cx, e):
+    if len(e.args) != 1 or e.keywords:
+        raise Untranslatable(f'_is_line_feed form {unparse(e)}')
+    t, ty = expr(cx, e.args[0])
+    need(ty, INT, unparse(e))
+    return f'(Sk.Py.isLineFeed F {t})', BOOL
+
+
 def _timedelta(cx, e):
     kw = kwargs(e)
     if e.args or set(kw) - {'days', 'hours'}:
@@ -615,6 +812,33 @@ FUNCS = [
                   'self.find_token_reverse': 'find_token_reverse'},
          calls={'SearchState': _search_state, 'LogLine': _logline},
          ignore_attrs=('self.lines_searched',), fuel=True),
+    dict(name='try_find_line_with_date', file='constraints.py', cls='LogFileDateSinceSeeker',
+         func='try_find_line_with_date',
+         params=[('start_offset', INT), ('line_feed_offset', OPTINT), ('forwards', BOOL),
+                 ('_pos', INT)],
+         ret=OPTLLINE, lean_ret='Option Sk.LLine',
+         ctx='(K : Sk.SeekK) (F : Sk.FileV) (ts : Nat → Option Int)', ctx_args='K F ts',
+         consts=dict(SEEK_CONSTS, **{
+             'LogFileDateSinceSeeker.MAX_TRY_FIND_WITH_DATE_ATTEMPTS': ('(K.ATT : Int)', INT),
+             'self.MAX_TRY_FIND_WITH_DATE_ATTEMPTS': ('(K.ATT : Int)', INT)}),
+         callees={'self.try_find_line': 'try_find_line'}, ts_oracle=True, fuel=True),
+    # __getitem__: the dated line that governs an offset; `found_any_date` and `line_info` are
+    # threaded through and returned with the date
+    dict(name='getitem', file='constraints.py', cls='LogFileDateSinceSeeker',
+         func='__getitem__',
+         params=[('offset', INT), ('self_found_any_date', BOOL), ('self_line_info', OPTLLINE),
+                 ('_pos', INT)],
+         ret=OPTDT, lean_ret='Option Int × Bool × Option Sk.LLine',
+         ctx='(K : Sk.SeekK) (F : Sk.FileV) (ts : Nat → Option Int) (since : Int)',
+         ctx_args='K F ts since',
+         consts=dict(SEEK_CONSTS, **{
+             'self.constraint.since_date': ('since', INT),
+             'FindTokenStatus.FOUND': ('Sk.Py.Status.found', STATUS),
+             'FindTokenStatus.REACHED_EOF': ('Sk.Py.Status.eof', STATUS)}),
+         callees={'self.try_find_line_with_date': 'try_find_line_with_date'},
+         calls={'self._is_line_feed': lambda cx, e: _is_line_feed(cx, e)},
+         state_out=['self_found_any_date', 'self_line_info'],
+         ignore_attrs=('self.lookup_count',), ts_oracle=True, fuel=True),
     dict(name='line_date_is_valid', file='constraints.py', cls='BinarySeekSearchBase',
          func='_line_date_is_valid', params=[('extracted_datetime', OPTDT)], ret=BOOL,
          lean_ret='Bool', ctx='(since : Int)', ctx_args='since',
@@ -692,6 +916,23 @@ def translate_one(repo, spec):
                 not isinstance(b2[0].value, ast.BinOp) or not isinstance(b2[0].value.op, ast.Sub):
             raise Untranslatable(f"{th['func']} is not `return self.current_date - <window>`")
         body = body + [ast.Return(value=b2[0].value.right)]
+    drop = cx.spec.get('drop_calls', ('log.debug', 'log.info', 'log.warning'))
+    loaded, stored = set(), set()
+
+    def walk(node, in_log=False):
+        if isinstance(node, ast.Expr) and isinstance(node.value, ast.Call) and \
+                unparse(node.value.func) in drop:
+            in_log = True
+        if isinstance(node, ast.Name):
+            if isinstance(node.ctx, ast.Load) and not in_log:
+                loaded.add(node.id)
+            elif isinstance(node.ctx, ast.Store):
+                stored.add(node.id)
+        for ch in ast.iter_child_nodes(node):
+            walk(ch, in_log)
+    for st_ in body:
+        walk(st_)
+    cx.dead = stored - loaded
     fuel = ' (fuel : Nat)' if spec['fuel'] else ''
 
     def fallthrough():
